@@ -8,9 +8,13 @@ Mirrors, as the code is in /repo:
   (PreConnectInitializer*, `_connect`, Initializer* in class order, `_init_shell`,
   PostShellInitializer*, the `init` hook);
 * `contextlib.ExitStack` (DESIGN 3.6): `enter_context` registers the exit callback only when
-  `__enter__` returned; `__exit__` runs the callbacks LIFO, keeps going when one raises, the last
-  exception raised wins, an exception that nobody replaced is re-raised unchanged (no step of the
-  modelled domain suppresses);
+  `__enter__` returned; `__exit__` runs the callbacks LIFO and keeps going when one raises: the
+  exception a callback raises replaces the one in flight (`pending_raise = True`), a callback that
+  returns true (a step whose context manager HANDLES the exception: class style `__exit__` returns
+  `True`, generator style catches what `contextmanager.__exit__` throws into it) clears it
+  (`pending_raise = False`); at the end the stack raises the exception in flight iff
+  `pending_raise`, otherwise it *returns* `received_exc and suppressed_exc` — a verdict that
+  `Machine.__exit__` discards;
 * `tbot/machine/board/board.py` — `PowerControl._init_machine`: `power_check`, the
   `powercycle_delay` wait, `poweron` inside `try`, `poweroff` and the time-stamp in `finally`.
 
@@ -26,11 +30,22 @@ inductive Kind where
   | pre | host | conn | init | power | shell | post | hook
   deriving DecidableEq, Repr, Inhabited
 
-/-- one class of the composition; `id` = its position in the list of bases -/
+/-- one class of the composition; `id` = its position in the list of bases; `handles` = the context
+    manager the step returns handles (suppresses) an exception passing through its `__exit__`
+    (class style: `__exit__` returns `True`; generator style: `except BaseException:` around the
+    `yield` without re-raising) -/
 structure Step where
   id : Nat
   kind : Kind
+  handles : Bool := false
   deriving DecidableEq, Repr, Inhabited
+
+/-- the step table by id: which context managers handle the exception passing through them
+    (parallel to `Faults`, which says by id which callbacks raise) -/
+abbrev Handles := Nat → Bool
+
+/-- the step table of a composition -/
+def handlesOf (steps : List Step) : Handles := fun i => steps.any fun s => s.id == i && s.handles
 
 /-- identity of an exception = the callback that raised it.  `refused` is the exception tbot
     itself raises when `power_check()` returns `False`; `body k` is raised by the `with` body. -/
@@ -74,14 +89,46 @@ def Frame.run (f : Faults) : Frame → Env → List Ev × Option Tag × Env
   | .cm id, env => ([.exit id], if f (.exit id) then some (.exit id) else none, env)
   | .power id, env => powerOff f id env
 
-/-- `ExitStack.__exit__(exc)`: callbacks LIFO (head = top of the stack); a raising callback
-    replaces the exception in flight and the loop continues; the result is what propagates. -/
-def unwind (f : Faults) : List Frame → Option Tag → Env → List Ev × Option Tag × Env
-  | [], exc, env => ([], exc, env)
-  | fr :: rest, exc, env =>
+/-- does the callback return true when it does not raise?  (`PowerControl._init_machine` is a
+    `try … finally`: never.) -/
+def Frame.handles (H : Handles) : Frame → Bool
+  | .cm id => H id
+  | .power _ => false
+
+/-- the state of the loop in `ExitStack.__exit__`: `exc_details[1]` (the exception in flight) and
+    `pending_raise` -/
+structure Flight where
+  exc : Option Tag
+  pending : Bool := false
+  deriving DecidableEq, Repr, Inhabited
+
+/-- one iteration of the loop, `cb(*exc_details)`: a callback that raises replaces the exception in
+    flight (`pending_raise = True`; Python chains the old one as `__context__`, only the identity of
+    the new one matters); one that returns true clears it (`suppressed_exc = True; pending_raise =
+    False; exc_details = (None, None, None)`).  For a generator-style handling step the clean-up
+    runs inside its `except` clause: a fault there leaves `gen.throw()` as a new exception, which
+    `contextmanager.__exit__` re-raises (`if exc is not value: raise`); without a fault the
+    generator returns and `__exit__` returns `exc is not value` = `True`. -/
+def Flight.after (fl : Flight) (raised : Option Tag) (handled : Bool) : Flight :=
+  match raised with
+  | some x => { exc := some x, pending := true }
+  | none => if handled then { exc := none, pending := false } else fl
+
+/-- end of `ExitStack.__exit__`: `if pending_raise: raise exc_details[1]` -/
+def Flight.raised (fl : Flight) : Option Tag := if fl.pending then fl.exc else none
+
+/-- … otherwise `return received_exc and suppressed_exc` (with an exception received and none
+    pending, `suppressed_exc` holds iff nothing is in flight any more) -/
+def Flight.verdict (received : Option Tag) (fl : Flight) : Bool := received.isSome && fl.exc.isNone
+
+/-- the loop of `ExitStack.__exit__(exc)`: callbacks LIFO (head = top of the stack); every
+    callback runs and is logged, whatever the ones before it did. -/
+def unwind (f : Faults) (H : Handles) : List Frame → Flight → Env → List Ev × Flight × Env
+  | [], fl, env => ([], fl, env)
+  | fr :: rest, fl, env =>
     let (ev, r, env1) := fr.run f env
-    let (evs, exc2, env2) := unwind f rest (r.or exc) env1
-    (ev ++ evs, exc2, env2)
+    let (evs, fl2, env2) := unwind f H rest (fl.after r (fr.handles H)) env1
+    (ev ++ evs, fl2, env2)
 
 /-- the `powercycle_delay` wait: ticks to sleep before `poweron` -/
 def sleepFor (delay : Nat) (env : Env) : Nat :=
@@ -112,24 +159,58 @@ def enterStep (f : Faults) (delay : Nat) (s : Step) (env : Env) :
   | .hook => ([.hook s.id], if f (.hook s.id) then .error (.hook s.id) else .ok none, env)
   | _ => ([.enter s.id], if f (.enter s.id) then .error (.enter s.id) else .ok (some (.cm s.id)), env)
 
-/-- the body of the guarded block in `__enter__`: enter the steps in order, stop at the first that
-    raises.  Result: events, exception, the ExitStack, environment. -/
-def enterSteps (f : Faults) (delay : Nat) : List Step → List Frame → Env →
+/-- the steps that are entered by ONE context manager handed to `self._cx.enter_context`:
+    `ConsoleConnector._connect` (connector/common.py) is the generator
+    `with self.host.clone() as cloned, self.connect(cloned) as ch: yield ch` — the lab-host clone
+    and the console connection are one unit; every other step is a unit of its own. -/
+def units : List Step → List (List Step)
+  | [] => []
+  | [s] => [[s]]
+  | s :: c :: rest => if s.kind == .host then [s, c] :: units rest else [s] :: units (c :: rest)
+
+/-- `__enter__` of one unit: the `with a, b:` statement inside the generator enters its context
+    managers in order; when one fails to enter, those entered before it are exited AT ONCE,
+    innermost first, by that `with` statement (the last exception raised leaves the generator) —
+    nothing of the unit reaches the ExitStack.  When all are entered the generator yields and
+    `enter_context` registers it: exiting it later exits them innermost first, each seeing what
+    the one before left in flight, exactly as consecutive callbacks of the stack would.
+    (A lab-host clone never handles — `Kind.mayHandle` —, so the walk over `held` uses the empty
+    step table.) -/
+def enterUnit (f : Faults) (delay : Nat) : List Step → List Frame → Env →
+    List Ev × Except Tag (List Frame) × Env
+  | [], held, env => ([], .ok held, env)
+  | s :: rest, held, env =>
+    match enterStep f delay s env with
+    | (ev, .error t, env1) =>
+      let (evx, fl, env2) := unwind f (fun _ => false) held { exc := some t } env1
+      (ev ++ evx, .error (fl.raised.getD t), env2)
+    | (ev, .ok fr, env1) =>
+      let (evs, r, env2) := enterUnit f delay rest (fr.toList ++ held) env1
+      (ev ++ evs, r, env2)
+
+/-- enter the units in order, stop at the first that raises.  Result: events, exception, the
+    ExitStack, environment. -/
+def enterUnits (f : Faults) (delay : Nat) : List (List Step) → List Frame → Env →
     List Ev × Option Tag × List Frame × Env
   | [], cx, env => ([], none, cx, env)
-  | s :: rest, cx, env =>
-    match enterStep f delay s env with
+  | u :: rest, cx, env =>
+    match enterUnit f delay u [] env with
     | (ev, .error t, env1) => (ev, some t, cx, env1)
-    | (ev, .ok fr, env1) =>
-      let (evs, r, cx2, env2) := enterSteps f delay rest (fr.toList ++ cx) env1
+    | (ev, .ok frs, env1) =>
+      let (evs, r, cx2, env2) := enterUnits f delay rest (frs ++ cx) env1
       (ev ++ evs, r, cx2, env2)
+
+/-- the body of the guarded block in `__enter__`: enter the steps in order, stop at the first that
+    raises.  Result: events, exception, the ExitStack, environment. -/
+def enterSteps (f : Faults) (delay : Nat) (steps : List Step) (cx : List Frame) (env : Env) :
+    List Ev × Option Tag × List Frame × Env :=
+  enterUnits f delay (units steps) cx env
 
 /-- the order in which `__enter__` visits the classes: three filters over `type(self).mro()` with
     the connector, the shell and the hook (resolved through the MRO: the first definition) in
     between.  `ConsoleConnector._connect` (connector/common.py) is
     `with self.host.clone() as cloned, self.connect(cloned) as ch: yield ch` — two nested contexts
-    inside one generator; they behave as two consecutive steps (the second failing to enter exits
-    the first at once, exits run in reverse, the last exception wins). -/
+    inside one generator: two consecutive steps that form one unit (`units`, `enterUnit`). -/
 def machSteps (mro : List Step) : List Step :=
   mro.filter (fun s => s.kind == .pre)
   ++ (mro.find? (fun s => s.kind == .host)).toList
@@ -146,18 +227,21 @@ structure Mach where
   env : Env := {}
   deriving DecidableEq, Repr, Inhabited
 
-/-- `Machine.__exit__(exc)`: events, what propagates afterwards (`__exit__` returns `None`, so an
-    incoming exception is never swallowed), machine.  (`_rc` is a `Nat`: the histories of the
-    domain are balanced, so it never goes below zero.) -/
-def machExit (f : Faults) (exc : Option Tag) (m : Mach) : List Ev × Option Tag × Mach :=
+/-- `Machine.__exit__(exc)` as seen by whoever called it with `exc` in flight (a `with m:`
+    statement, or the guard stack of `__enter__`): events, what propagates afterwards, machine.
+    `self._cx.__exit__(*args)` either raises — that exception propagates — or returns its verdict,
+    which is DISCARDED: `Machine.__exit__` returns `None`, so the caller re-raises the incoming
+    exception whatever the steps handled.  (`_rc` is a `Nat`: the histories of the domain are
+    balanced, so it never goes below zero.) -/
+def machExit (f : Faults) (H : Handles) (exc : Option Tag) (m : Mach) : List Ev × Option Tag × Mach :=
   let rc := m.rc - 1
   if rc == 0 then
-    let (evs, r, env) := unwind f m.cx exc m.env
-    (evs, r, { rc := 0, cx := [], env := env })
+    let (evs, fl, env) := unwind f H m.cx { exc := exc } m.env
+    (evs, fl.raised.or exc, { rc := 0, cx := [], env := env })
   else ([], exc, { m with rc := rc })
 
 /-- `Machine.__enter__`. -/
-def machEnter (f : Faults) (delay : Nat) (steps : List Step) (m : Mach) : List Ev × Option Tag × Mach :=
+def machEnter (f : Faults) (H : Handles) (delay : Nat) (steps : List Step) (m : Mach) : List Ev × Option Tag × Mach :=
   let rc := m.rc + 1
   if rc > 1 then ([], none, { m with rc := rc })
   else
@@ -167,8 +251,9 @@ def machEnter (f : Faults) (delay : Nat) (steps : List Step) (m : Mach) : List E
     match r with
     | none => (evs, none, m1)          -- `cx.pop_all()`
     | some t =>
-      -- the guard stack calls `self.__exit__(t)`
-      let (evx, r2, m2) := machExit f (some t) m1
+      -- the guard stack calls `self.__exit__(t)`: when that raises, the guard stack raises the new
+      -- exception; when it returns (`None`), the guard stack returns false and `with` re-raises `t`
+      let (evx, r2, m2) := machExit f H (some t) m1
       (evs ++ evx, r2, m2)
 
 /-- actions of a `with m:` body -/
@@ -181,38 +266,38 @@ def Op.ev : Op → Ev
   | .opened => .opened | .closed => .closed | .mark k => .mark k | .raise k => .raise k
 
 /-- an exception leaves `d` enclosing inner `with m:` blocks: `__exit__(exc)` of each -/
-def propagate (f : Faults) : Nat → Tag → Mach → List Ev × Tag × Mach
+def propagate (f : Faults) (H : Handles) : Nat → Tag → Mach → List Ev × Tag × Mach
   | 0, t, m => ([], t, m)
   | d + 1, t, m =>
-    let (ev, r, m1) := machExit f (some t) m
-    let (evs, t2, m2) := propagate f d (r.getD t) m1
+    let (ev, r, m1) := machExit f H (some t) m
+    let (evs, t2, m2) := propagate f H d (r.getD t) m1
     (ev ++ evs, t2, m2)
 
 /-- the body of the outermost `with m:`; `d` = number of inner `with m:` blocks that are open -/
-def runBody (f : Faults) (delay : Nat) (steps : List Step) : List Op → Nat → Mach →
+def runBody (f : Faults) (H : Handles) (delay : Nat) (steps : List Step) : List Op → Nat → Mach →
     List Ev × Option Tag × Mach
   | [], _, m => ([], none, m)
   | .opened :: ops, d, m =>
-    match machEnter f delay steps m with
+    match machEnter f H delay steps m with
     | (ev, some t, m1) =>
-      let (evs, t2, m2) := propagate f d t m1
+      let (evs, t2, m2) := propagate f H d t m1
       (ev ++ evs, some t2, m2)
     | (ev, none, m1) =>
-      let (evs, r, m2) := runBody f delay steps ops (d + 1) m1
+      let (evs, r, m2) := runBody f H delay steps ops (d + 1) m1
       (ev ++ .opened :: evs, r, m2)
   | .closed :: ops, d, m =>
-    match machExit f none m with
+    match machExit f H none m with
     | (ev, some t, m1) =>
-      let (evs, t2, m2) := propagate f (d - 1) t m1
+      let (evs, t2, m2) := propagate f H (d - 1) t m1
       (ev ++ evs, some t2, m2)
     | (ev, none, m1) =>
-      let (evs, r, m2) := runBody f delay steps ops (d - 1) m1
+      let (evs, r, m2) := runBody f H delay steps ops (d - 1) m1
       (ev ++ .closed :: evs, r, m2)
   | .mark k :: ops, d, m =>
-    let (evs, r, m2) := runBody f delay steps ops d m
+    let (evs, r, m2) := runBody f H delay steps ops d m
     (.mark k :: evs, r, m2)
   | .raise k :: _, d, m =>
-    let (evs, t2, m2) := propagate f d (.body k) m
+    let (evs, t2, m2) := propagate f H d (.body k) m
     (.raise k :: evs, some t2, m2)
 
 /-- one use of the machine by a caller: `with m: body`, with its own fault assignment; `gap` ticks
@@ -235,13 +320,13 @@ structure SObs where
 /-- `gap` ticks pass on the clock -/
 def advance (gap : Nat) (m : Mach) : Mach := { m with env := { m.env with now := m.env.now + gap } }
 
-/-- `with m: body` as the caller sees it -/
+/-- `with m: body` as the caller sees it (the step table is that of the steps) -/
 def runSession (delay : Nat) (steps : List Step) (s : Session) (m : Mach) : SObs × Mach :=
-  match machEnter s.f delay steps (advance s.gap m) with
+  match machEnter s.f (handlesOf steps) delay steps (advance s.gap m) with
   | (ev1, some t, m1) => (⟨ev1, some t, m1.rc⟩, m1)
   | (ev1, none, m1) =>
-    let (ev2, r2, m2) := runBody s.f delay steps s.body 0 m1
-    let (ev3, r3, m3) := machExit s.f r2 m2
+    let (ev2, r2, m2) := runBody s.f (handlesOf steps) delay steps s.body 0 m1
+    let (ev3, r3, m3) := machExit s.f (handlesOf steps) r2 m2
     (⟨ev1 ++ ev2 ++ ev3, r3, m3.rc⟩, m3)
 
 def runSessions (delay : Nat) (steps : List Step) : List Session → Mach → List SObs
@@ -250,20 +335,32 @@ def runSessions (delay : Nat) (steps : List Step) : List Session → Mach → Li
     let (o, m1) := runSession delay steps s m
     o :: runSessions delay steps ss m1
 
-/-- a case: the composition, `powercycle_delay` (ticks), the sessions on ONE machine object -/
+/-- a case: the composition, `powercycle_delay` (ticks), the sessions on ONE machine object;
+    `handlers` = the ids (positions in `bases`) of the steps whose context manager handles the
+    exception passing through it -/
 structure Case where
   bases : List Kind
   delay : Nat
   sessions : List Session
+  handlers : List Nat := []
   deriving DecidableEq, Repr, Inhabited
 
 /-- the classes of the composition with their ids (flat composition: MRO order = declaration
     order of the bases) -/
-def mroFrom : Nat → List Kind → List Step
+def mroFrom (hs : List Nat) : Nat → List Kind → List Step
   | _, [] => []
-  | i, k :: ks => ⟨i, k⟩ :: mroFrom (i + 1) ks
+  | i, k :: ks => ⟨i, k, hs.contains i⟩ :: mroFrom hs (i + 1) ks
 
-def Case.mro (c : Case) : List Step := mroFrom 0 c.bases
+def Case.mro (c : Case) : List Step := mroFrom c.handlers 0 c.bases
+
+/-- the kinds of step whose context manager may handle exceptions in the domain: the instrumented
+    mixins.  (`PowerControl._init_machine` and `init()` are tbot's own / no context manager; a
+    lab-host whose `clone()` context handles the exception of a failing `connect()` makes the
+    generator `ConsoleConnector._connect` return without yielding — `contextmanager.__enter__`
+    then raises `RuntimeError("generator didn't yield")`: a misuse, not a case.) -/
+def Kind.mayHandle : Kind → Bool
+  | .pre | .conn | .init | .shell | .post => true
+  | .host | .power | .hook => false
 
 /-- the fault-free fresh entry appended to every case: does the machine initialise again? -/
 def probe : Session := {}
@@ -280,11 +377,13 @@ def balanced : List Op → Nat → Bool
   | _ :: ops, d => balanced ops d
 
 /-- domain of the property: exactly one connector and one shell, at most one `PowerControl`,
-    one `init` override and one lab-host (Python cannot express more), well-bracketed bodies -/
+    one `init` override and one lab-host (Python cannot express more), well-bracketed bodies,
+    handling context managers only where `Kind.mayHandle` -/
 def Case.wf (c : Case) : Bool :=
   c.bases.count .conn == 1 && c.bases.count .shell == 1 && c.bases.count .power ≤ 1
   && c.bases.count .hook ≤ 1 && c.bases.count .host ≤ 1
   && c.sessions.all (fun s => balanced s.body 0)
+  && c.mro.all (fun s => !s.handles || s.kind.mayHandle)
 
 /-! ## wire format -/
 namespace Wire
@@ -301,21 +400,34 @@ def lettered (s : String) : Option (Char × Nat) :=
   | c :: rest => (String.ofList rest).toNat?.map (fun n => (c, n))
   | [] => none
 
-def style (cs : List Char) : Option Unit :=
-  if cs == ['g'] || cs == ['k'] then some () else none
+/-- style of a step's context manager: `g` generator / `k` class (the difference is invisible),
+    `u` generator / `t` class that HANDLES the exception passing through it → `handles` -/
+def style (cs : List Char) : Option Bool :=
+  if cs == ['g'] || cs == ['k'] then some false
+  else if cs == ['u'] || cs == ['t'] then some true
+  else none
 
-/-- `pg pk lg lk cg ck ig ik sg sk qg qk` (kind + context-manager style, ignored by the model), `w`, `h` -/
-def kind (s : String) : Option Kind :=
+/-- the lab-host clone: `g` / `k` only (see `Kind.mayHandle`) -/
+def plainStyle (cs : List Char) : Option Bool :=
+  if cs == ['g'] || cs == ['k'] then some false else none
+
+/-- `p? c? i? s? q?` with `?` over `g k t u`; `lg lk`; `w`, `h`: the kind and whether the step handles -/
+def kind (s : String) : Option (Kind × Bool) :=
   match s.toList with
-  | ['w'] => some .power
-  | ['h'] => some .hook
-  | 'p' :: st => (style st).map fun _ => .pre
-  | 'l' :: st => (style st).map fun _ => .host
-  | 'c' :: st => (style st).map fun _ => .conn
-  | 'i' :: st => (style st).map fun _ => .init
-  | 's' :: st => (style st).map fun _ => .shell
-  | 'q' :: st => (style st).map fun _ => .post
+  | ['w'] => some (.power, false)
+  | ['h'] => some (.hook, false)
+  | 'p' :: st => (style st).map fun h => (.pre, h)
+  | 'l' :: st => (plainStyle st).map fun h => (.host, h)
+  | 'c' :: st => (style st).map fun h => (.conn, h)
+  | 'i' :: st => (style st).map fun h => (.init, h)
+  | 's' :: st => (style st).map fun h => (.shell, h)
+  | 'q' :: st => (style st).map fun h => (.post, h)
   | _ => none
+
+/-- the positions (from `i`) of the bases that handle -/
+def handlersFrom : Nat → List (Kind × Bool) → List Nat
+  | _, [] => []
+  | i, (_, h) :: ks => (if h then [i] else []) ++ handlersFrom (i + 1) ks
 
 def tag (t : Tag) : String :=
   match t with
@@ -368,7 +480,9 @@ def sessionOf (s : String) : Option Session :=
 def case (toks : List String) : Option Case :=
   match toks with
   | b :: d :: ss => do
-    pure { bases := ← listOf kind b, delay := ← d.toNat?, sessions := ← ss.mapM sessionOf }
+    let ks ← listOf kind b
+    pure { bases := ks.map (·.1), delay := ← d.toNat?, sessions := ← ss.mapM sessionOf,
+           handlers := handlersFrom 0 ks }
   | _ => none
 
 /-- `<trace>;<exc>;<rc>` -/
